@@ -3,4 +3,4 @@ From Coq Require Import ExtrOcamlBasic.
 From Cloak Require Import Model.Hello Model.FirstPacket Model.Dispatch Model.DispatchInst.
 Extraction Blacklist List String Int.
 Extraction "../ocaml/gen/c09.ml" rfp rfp_gen relay first_data read_full_seg dispatch_gcm decide_gcm auth_gcm decide_real dh_real goweb
-  server_writes relays finish_tls parseClientHello parseExtensions parseKeyShare tls_first_packet ws_first_packet.
+  server_writes relays finish_tls finish_ws parseClientHello parseExtensions parseKeyShare tls_first_packet ws_first_packet.
